@@ -85,6 +85,16 @@ impl Client {
         writer.get_ref().set_write_timeout(d)
     }
 
+    /// Number of entries in the pending map (verification hook: lets a
+    /// conformance harness check that finished calls leave nothing behind).
+    #[cfg(feature = "verif-hooks")]
+    pub fn verif_pending_len(&self) -> usize {
+        match self.inner.pending.lock() {
+            Ok(g) => g.len(),
+            Err(p) => p.into_inner().len(),
+        }
+    }
+
     fn next_request_id(&self) -> u64 {
         self.inner.next_id.fetch_add(1, Ordering::Relaxed)
     }
